@@ -6,6 +6,8 @@ From V.lib Require Import Base.
 From V.c04 Require Import C04Model C04AsmModel C04ReaderProofs C04ContainerProofs C04AsmProofs.
 From V.c04 Require Import C04AllocModel C04AllocProofs.
 From V.c04 Require Import C04MfraModel C04MfraProofs.
+From V.c04 Require Import C04TreeModel C04TreeProofs.
+Open Scope N_scope.
 
 (* ---- (a) bits.FixedSliceReader: every method, every reachable state, under the caller guards ---- *)
 Theorem C04_reader_safe : forall s o, rinv s = true -> rguard s o = true ->
@@ -419,3 +421,48 @@ Example ex_mfra_standalone_mfro :
   find_and_read_mfra_x true [(XTop (TMoof []), 24); (XMdatMfra 4 [(1, [0])] (Some 67), 79)] = Ok (Some [0]) /\
   find_and_read_mfra_x true [(XTop (TMoof []), 24); (XMfra [(1, [0])] (Some 66), 67)] = Err.
 Proof. repeat split; vm_compute; reflexivity. Qed.
+
+(* ---- (f) the allocation clause over TREES: DecodeBoxSR / DecodeBox with both container child loops where every leaf of
+        type trun stts ctts stsc stsz stco co64 stss sdtp saiz saio sbgp elst tfra runs its modelled prologue (size guard,
+        make([]T, n), entry loop) and every other leaf is any decoder under the old contract (cost <= consumed + 1):
+        for EVERY byte string below 32 GiB - 16 the decode returns a tree, EOF or an error, and the bytes requested and
+        the loop iterations / decoded boxes are each <= 2600 * len + 20740 (SliceReader) / 2601 * len + 20771 (io.Reader).
+        The factor is a trun of 16..24 bytes that legitimately reserves 1024 samples (16 KiB).
+        Full statement asked for (not proved): also sidx, subs, pssh as leaves; they have no size guard, so the position
+        they leave the shared reader at is not a function of the header and needs its own model. ---- *)
+Theorem C04_tree_alloc_partial : forall other, leaf_ok other -> forall bs, small32 bs = true ->
+  (exists r s', box_sr (mix_leaves other) bs = (r, s') /\ (r = Err \/ exists t, r = Ok t) /\
+                (alloc (scost s') <= 2600 * lenN bs + 20740)%N /\ (ticks (scost s') <= 2600 * lenN bs + 20740)%N) /\
+  (exists r s', box_r (mix_leaves other) bs = (r, s') /\ (r = Err \/ r = Ok BEof \/ exists t, r = Ok (BBox t)) /\
+                (alloc (icost s') <= 2601 * lenN bs + 20771)%N /\ (ticks (icost s') <= 2601 * lenN bs + 20771)%N).
+Proof. exact tree_alloc. Qed.
+Print Assumptions C04_tree_alloc_partial.
+
+(* the refactored leaf contract (a leaf costs LA * consumed + LC when it returns a box, LA * remaining + LC when it
+   returns an error) and the container theorems for ANY leaf decoder satisfying it *)
+Theorem C04_container_total2_sr : forall ld, leaf_ok2 ld -> forall bs, small32 bs = true ->
+  exists r s', box_sr ld bs = (r, s') /\ (r = Err \/ exists t, r = Ok t) /\
+               (tot (scost s') <= 2600 * lenN bs + 20740)%N.
+Proof. exact tree_total_sr. Qed.
+Print Assumptions C04_container_total2_sr.
+
+Theorem C04_container_total2_r : forall ld, leaf_ok2 ld -> forall bs, small32 bs = true ->
+  exists r s', box_r ld bs = (r, s') /\ (r = Err \/ r = Ok BEof \/ exists t, r = Ok (BBox t)) /\
+               (tot (icost s') <= 2601 * lenN bs + 20771)%N.
+Proof. exact tree_total_r. Qed.
+Print Assumptions C04_container_total2_r.
+
+Theorem C04_table_leaves_ok : forall other, leaf_ok other -> leaf_ok2 (mix_leaves other).
+Proof. exact mix_leaves_ok2. Qed.
+Print Assumptions C04_table_leaves_ok.
+
+(* moof{mfhd, traf{tfhd, trun(1 sample)}}: the trun leaf runs its prologue inside two containers on both paths;
+   the hypotheses (a leaf decoder under the old contract, a byte string below 32 GiB) are satisfiable *)
+Example ex_tree_moof : list N :=
+  [0;0;0;60;109;111;111;102; 0;0;0;16;109;102;104;100;0;0;0;0;0;0;0;1;
+   0;0;0;36;116;114;97;102; 0;0;0;8;102;114;101;101; 0;0;0;20;116;114;117;110;0;0;2;0;0;0;0;1;0;0;0;4].
+Example ex_tree_moof_ok :
+  leaf_ok std_leaves /\ small32 ex_tree_moof = true /\
+  (match box_sr tbl_leaves ex_tree_moof with (Ok t, s) => tsize t = 60%N /\ alloc (scost s) = 36%N | _ => False end) /\
+  (match box_r tbl_leaves ex_tree_moof with (Ok (BBox t), s) => tsize t = 60%N | _ => False end).
+Proof. split; [exact std_leaves_ok|]. vm_compute. repeat split; reflexivity. Qed.
